@@ -135,7 +135,41 @@ Definition exact_ok (d : dfa) (g : graph) (V : pairing) (R : rankmap) (D : pset)
 (* ---------- graph well-formedness (what the two code generators rely on) ---------- *)
 Fixpoint count_edges (es : list (ranges * sid)) (b : byte) : nat :=
   match es with [] => O | (rs, _) :: es' => (if in_ranges b rs then 1 else 0) + count_edges es' b end.
+Fixpoint nodup_pos (l : list positive) : bool :=
+  match l with [] => true | x :: r => negb (existsb (Pos.eqb x) r) && nodup_pos r end.
+(* byte classes pairwise disjoint; at most one edge per target (the generator asserts it) *)
 Definition wf_state (st : gstate) : bool :=
-  forallb (fun b => Nat.leb (count_edges (g_edges st) b) 1) all_bytes.
+  forallb (fun b => Nat.leb (count_edges (g_edges st) b) 1) all_bytes
+  && nodup_pos (map snd (g_edges st)).
 Definition wf_graph (g : graph) : bool :=
   forallb (fun kv => wf_state (snd kv)) (PositiveMap.elements (g_states g)).
+
+(* ---------- promptness of partial lexing (C07) ----------
+   A pair is *determined* when every unit successor of the DFA state is non-live and all agree on
+   the winner: then every extension of the text read yields the same item.  A determined pair must
+   not be a state that returns None at the end of the buffer (prompt_ok), except that definitions
+   with look-around may need one more byte: then every byte edge of the state must lead to a state
+   that does not return None (prompt1). *)
+Definition winner_eqb (a b : winner) : bool :=
+  match a, b with
+  | WNone, WNone => true | WTie, WTie => true | WOne x, WOne y => x =? y | _, _ => false end.
+
+Definition determined (d : dfa) (R : rankmap) (q : qid) : bool :=
+  let w0 := win d (dstep d q UEoi) in
+  negb (lv_of R (dstep d q UEoi)) &&
+  forallb (fun b => let q' := dstep d q (UB b) in negb (lv_of R q') && winner_eqb (win d q') w0) all_bytes.
+
+Definition prompt_pair (d : dfa) (g : graph) (R : rankmap) (s : sid) (q : qid) : bool :=
+  match gfind g s with
+  | None => false
+  | Some st =>
+      if determined d R q then
+        negb (partial_mode_test st)
+        || forallb (fun e => match gfind g (snd e) with
+                             | Some st' => negb (partial_mode_test st')
+                             | None => false end) (g_edges st)
+      else true
+  end.
+
+Definition prompt_ok (d : dfa) (g : graph) (V : pairing) (R : rankmap) : bool :=
+  forallb (fun kv => forallb (prompt_pair d g R (fst kv)) (snd kv)) (PositiveMap.elements V).
